@@ -1,9 +1,8 @@
 """Exploration of one invoke: transformation histories x initial halo states,
 executed on the ring machine and judged against the global serial run."""
 import itertools
-import os
 
-from mc.fortsem.interp import UB, Unsupported
+from mc.fortsem.interp import UB
 from mc.lfring import execpsy, gen, kernels, ring, trans
 
 NCELL, DEPTH = 4, 3
@@ -273,7 +272,7 @@ def explore(invoke, annexed, max_depth, kinds, executor, max_states=None,
             unviewable = False
             try:
                 view_of(sched)
-            except PSycloneError as err:
+            except PSycloneError:
                 unviewable = True
             res["states"] += 1
             htext = trans.history_text(hist)
@@ -338,7 +337,7 @@ def explore(invoke, annexed, max_depth, kinds, executor, max_states=None,
                     continue
                 try:
                     view = view_of(sched2)
-                except PSycloneError as err:
+                except PSycloneError:
                     # accepted, but code generation will refuse: the state
                     # is kept (its psy.gen outcome is recorded) but not
                     # compared with other schedules
